@@ -86,7 +86,12 @@ func c08Oracle(ec *epCase) *Failure {
 					return c08Known(ec, &Failure{Sig: "C08/suppressible-error-not-suppressed/" + p.s.Class + "/" + tag, Expected: "no error (verbose: " + p.v.String() + ")", Observed: p.s.String()})
 				}
 			case "exists":
+				// lax: an item found before the failure had already established "true" (early exit);
+				// otherwise, and always in strict mode, NULL
 				ok := p.s.Class == "null" || (!ec.p.Strict && p.s.Class == "ok" && p.s.Bool && len(ec.silent.q.Items) > 0)
+				if ok && !ec.p.Strict && len(ec.silent.q.Items) > 0 && p.s.Class == "null" {
+					ok = false
+				}
 				if !ok {
 					return c08Known(ec, &Failure{Sig: "C08/exists-after-suppressed-error/" + tag, Expected: "NULL (or true if an item was found before the failure in lax mode); verbose: " + p.v.String() + "; silent Query: " + ec.silent.q.String(), Observed: p.s.String()})
 				}
@@ -95,9 +100,10 @@ func c08Oracle(ec *epCase) *Failure {
 					continue
 				}
 				ok := p.s.Class == "null"
-				if !ok && p.s.Class == "ok" && len(ec.silent.q.Items) == 1 {
-					if b, isB := ec.silent.q.Items[0].(bool); isB && b == p.s.Bool {
-						ok = true
+				if len(ec.silent.q.Items) == 1 {
+					if b, isB := ec.silent.q.Items[0].(bool); isB {
+						// the sole boolean found before the failure is the established answer
+						ok = p.s.Class == "ok" && b == p.s.Bool
 					}
 				}
 				if !ok {
